@@ -104,6 +104,7 @@ type Interp struct {
 	fpDiv    map[*Term]map[uint64]*Term
 	fpLazy   map[*Term]*Term
 	digitSum map[*Term]*Term
+	poolPut  map[*Object]bool
 	gsm7Text map[*Object]view
 	atoiMap  map[*Term][]*Term
 	fmtTimeVals map[*Object]*Term
